@@ -21,7 +21,7 @@ ASSUMPTIONS = [
     "labels longer than L are not enumerated; the predicate only ever inspects a prefix of the label",
 ]
 
-ALPHA = ["a", "A", "b", "%", "_", "\\", ".", "0", "-", "é", "/"]
+ALPHA = ["a", "A", "b", "%", "_", "\\", ".", "0", "-", "é", "[", "]", "/"]
 
 
 def valid_label(s):
@@ -418,7 +418,7 @@ def jobs(tier, seed):
     chunk = 12 if tier == "quick" else 30
     for site in SITES:
         for lo in range(0, len(ds), chunk):
-            out.append({"site": site, "L": L, "D": D, "ds": ds[lo : lo + chunk]})
+            out.append({"site": site, "L": L, "D": D, "ds": ds[lo : lo + chunk], "first_chunk": lo == 0})
     for lo in range(0, len(ds), 4):
         out.append({"site": "target_dir", "L": min(L, 3), "D": D, "ds": ds[lo : lo + 4]})
     return out
@@ -434,6 +434,14 @@ def run_job(spec):
         for d in ds:
             site_target_dir(sub, d, acc)
         return acc
+    if site in ("adopt", "handover", "child", "owner"):
+        # a directory whose name holds a complete wildcard (`[a]`) cannot be declared as a
+        # static tree at all (the workflow refuses it): nothing to select for it at these sites
+        from stepup.core.nglob import has_any_wildcards
+
+        ds = [d for d in ds if not has_any_wildcards(d)]
+        if not ds:
+            return acc
     w = WF()
     try:
         if site == "adopt":
@@ -441,7 +449,7 @@ def run_job(spec):
         elif site == "handover":
             site_handover(w, labs, ds, acc)
         elif site == "child":
-            site_child_tree(w, dirs(2), acc) if ds[0] == dirs(spec["D"])[0] else None
+            site_child_tree(w, [d for d in dirs(2) if not has_any_wildcards(d)], acc) if spec.get("first_chunk") else None
         elif site == "owner":
             site_owner(w, labs, ds, acc)
         elif site == "relevant":
